@@ -2,49 +2,408 @@
 
 package vault
 
+// C19 — "a use-limited token authorises at most its number of uses": trace-validation harness.
+//
+// One case = a real Core on a gated physical backend, a token with num_uses = n, m goroutines each issuing ONE
+// request with that token. A seeded scheduler decides which goroutine executes its next storage operation. The
+// executed (thread, op, key class) sequence and every request's outcome class are written as ops; the Lean driver
+// (stream `usecount`) replays the observed schedule on the micro-step model and answers, per event, whether it is
+// an enabled transition, and, per request, the outcome the model predicts. The direct property predicate is
+// evaluated on the same lines by props/C19.py (no model involved).
+//
+// Op lines of a case (after `reset`):
+//   init <n> <m> <kind>...           => ok
+//   ev <t> <get|put|delete|list> <keyclass>   (storage op executed by request thread t)   => ok
+//   blocked <t>                       (thread t did not reach a gate: waiting for a lock)   => ok
+//   done <t>                          => outcome class of request t
+//   final                             => gone | pending | uses:<k>      (token entry read back from storage)
+//   leases                            => issued:<a>/revoked:<b>         (recording backend's secrets)
+//   after <kind>                      => outcome class of one more sequential request with the token
+//
+// The file also holds the scheduling loop shared with the C18 harness (identifiers prefixed c19).
+
 import (
+	"encoding/json"
+	"strings"
 	"testing"
+	"time"
 
 	"github.com/openbao/openbao/sdk/v2/logical"
+	"github.com/openbao/openbao/v2/internal/helper/namespace"
 	"github.com/openbao/openbao/v2/internal/zzverif/vh"
 )
 
-func TestVerifC19Smoke(t *testing.T) {
-	rng := vh.NewRand(vh.Seed())
-	for round := 0; round < 3; round++ {
-		p := vhNewPhys(t)
-		c, _, root := vhNewCore(t, p, nil, nil)
-		tok := vhCreateToken(t, c, root, map[string]any{"ttl": "1h", "policies": []string{"default"}, "num_uses": 2})
-		const m = 3
-		s := vhNewSched(p, m)
-		for i := 0; i < m; i++ {
-			s.Go(i, func() string {
-				cl, _ := vhReq(c, logical.ReadOperation, "cubbyhole/x", tok, nil)
-				return cl
-			})
+const c19Policy = `
+path "rec/lease/*" { capabilities = ["read"] }
+path "rec/data/*" { capabilities = ["read", "update", "create"] }
+path "auth/token/create" { capabilities = ["update"] }
+path "sys/wrapping/rewrap" { capabilities = ["update"] }
+`
+
+var c19Kinds = []string{"read", "write", "denied", "self", "lease", "create", "recread"}
+
+// c19Issue performs the request of the given kind with token tok and returns its outcome class.
+func c19Issue(c *Core, kind, tok string, k int) string {
+	var cl string
+	var resp *logical.Response
+	switch kind {
+	case "read":
+		cl, resp = vhReq(c, logical.ReadOperation, "cubbyhole/x", tok, nil)
+	case "write":
+		cl, resp = vhReq(c, logical.UpdateOperation, "cubbyhole/x", tok, map[string]any{"v": "1"})
+	case "denied":
+		cl, resp = vhReq(c, logical.ReadOperation, "sys/mounts", tok, nil)
+	case "self":
+		cl, resp = vhReq(c, logical.ReadOperation, "auth/token/lookup-self", tok, nil)
+	case "lease":
+		cl, resp = vhReq(c, logical.ReadOperation, vh.Sprintf("rec/lease/k%d", k), tok, nil)
+	case "recread":
+		cl, resp = vhReq(c, logical.ReadOperation, "rec/data/a", tok, nil)
+	case "create":
+		cl, resp = vhReq(c, logical.UpdateOperation, "auth/token/create", tok, map[string]any{"policies": []string{"default"}, "ttl": "10m"})
+		if cl == "ok" && resp != nil && resp.Auth != nil && resp.Auth.ClientToken != "" {
+			cl = "ok+child"
 		}
-		trace := []string{}
-		for step := 0; step < 2000; step++ {
-			var cand []int
-			for i := 0; i < m; i++ {
-				if !s.Finished(i) {
+	default:
+		return "bad-kind"
+	}
+	if resp != nil && resp.Secret != nil {
+		cl += "+secret"
+	} else if resp != nil && resp.Data != nil {
+		if s, ok := resp.Data["secret"].(string); ok && strings.HasPrefix(s, "canary-") {
+			cl += "+secretdata"
+		}
+	}
+	return cl
+}
+
+// c19Salted: the salted id under which the entry of token tok is stored (tok may be the external, server-side
+// consistent form of the id: resolve it through a lookup once, before the case starts).
+func c19Salted(t *testing.T, c *Core, tok string) string {
+	te, err := c.tokenStore.lookupInternal(vhRootCtx(), tok, false, true)
+	if err != nil || te == nil {
+		t.Fatalf("c19Salted: token lookup failed: %v", err)
+	}
+	salted, err := c.tokenStore.SaltID(vhRootCtx(), te.ID)
+	if err != nil {
+		t.Fatal(err)
+	}
+	return salted
+}
+
+// c19TokenState reads the stored token entry through the token store's barrier view: no lookupInternal (which
+// has side effects on entries without a lease), no gate (the calling goroutine is untagged).
+func c19TokenState(c *Core, salted string) string {
+	raw, err := c.tokenStore.idView(namespace.RootNamespace).Get(vhRootCtx(), salted)
+	if err != nil {
+		return "err:get"
+	}
+	if raw == nil {
+		return "gone"
+	}
+	var te logical.TokenEntry
+	if err := json.Unmarshal(raw.Value, &te); err != nil {
+		return "err:decode"
+	}
+	if te.NumUses < 0 {
+		return "pending"
+	}
+	return vh.Sprintf("uses:%d", te.NumUses)
+}
+
+// c19KeyClass classifies physical keys like vhKeyClass, but only the entry of token tok is `tok-id`; the id
+// entries of all other tokens are `tok-other`.
+func c19KeyClass(salted string) func(string) string {
+	own := "sys/token/id/" + salted
+	return func(k string) string {
+		cl := vhKeyClass(k)
+		if cl == "tok-id" && k != own {
+			return "tok-other"
+		}
+		return cl
+	}
+}
+
+// c19Step is one scheduling decision; pick returns the index into cand.
+type c19Picker func(cand []int, step int) int
+
+// c19Hooks: keyClass classifies physical keys (default vhKeyClass); onEv sees every executed op; afterDone runs
+// right after the `done` line of a thread was written (used to wait for background revocation).
+type c19Hooks struct {
+	keyClass  func(key string) string
+	onEv      func(i int, op *vhOp)
+	afterDone func(i int)
+}
+
+// c19RunSchedule drives the m gated threads of sched to completion. Every executed storage op is written as
+// an `ev` line, every lock wait as `blocked`, every completion as `done`. After releasing a thread the
+// scheduler waits until that thread is parked again, finished, or blocked, so that between two scheduling
+// decisions every request thread is quiescent (background goroutines of the core are never gated).
+// Returns false when the case had to be aborted (deadlock / step limit).
+func c19RunSchedule(out *vh.Out, s *vhSched, m int, pick c19Picker, hk c19Hooks) bool {
+	if hk.keyClass == nil {
+		hk.keyClass = vhKeyClass
+	}
+	state := make([]string, m) // "", "gate", "blocked", "done"
+	stale := make([]bool, m)   // blocked verdict is older than the last executed op
+	settle := func(i int) {
+		r := s.Advance(i)
+		if r == "blocked" {
+			// nobody else alive => cannot be a lock held by a request thread: it is slow, keep waiting
+			alive := false
+			for j := 0; j < m; j++ {
+				if j != i && state[j] != "done" {
+					alive = true
+				}
+			}
+			for tries := 0; !alive && r == "blocked" && tries < 200; tries++ {
+				r = s.Advance(i)
+			}
+		}
+		switch r {
+		case "gate":
+			state[i] = "gate"
+		case "done":
+			state[i] = "done"
+			out.Op(s.Result(i), "done", vh.I(int64(i)))
+			if hk.afterDone != nil {
+				hk.afterDone(i)
+			}
+		case "blocked":
+			state[i] = "blocked"
+			stale[i] = false
+			out.Op("ok", "blocked", vh.I(int64(i)))
+		}
+	}
+	for i := 0; i < m; i++ {
+		settle(i)
+	}
+	for step := 0; step < 4000; step++ {
+		var cand []int
+		alldone := true
+		for i := 0; i < m; i++ {
+			switch state[i] {
+			case "gate":
+				cand = append(cand, i)
+				alldone = false
+			case "blocked":
+				alldone = false
+				if stale[i] {
 					cand = append(cand, i)
 				}
 			}
-			if len(cand) == 0 {
-				break
-			}
-			i := cand[rng.Intn(len(cand))]
-			switch s.Advance(i) {
-			case "gate":
-				op := s.Parked(i)
-				trace = append(trace, vh.Sprintf("%d:%s:%s", i, op.Kind, vhKeyClass(op.Key)))
-				s.Release(i)
-			case "blocked":
-				trace = append(trace, vh.Sprintf("%d:blocked", i))
+		}
+		if alldone {
+			return true
+		}
+		if len(cand) == 0 {
+			out.Op("deadlock", "abort")
+			return false
+		}
+		i := cand[pick(cand, step)]
+		if state[i] == "blocked" {
+			settle(i)
+			continue
+		}
+		op := s.Parked(i)
+		out.Op("ok", "ev", vh.I(int64(i)), op.Kind, hk.keyClass(op.Key))
+		if hk.onEv != nil {
+			hk.onEv(i, op)
+		}
+		s.Release(i)
+		for j := 0; j < m; j++ {
+			if state[j] == "blocked" {
+				stale[j] = true
 			}
 		}
-		s.Drain(1000)
-		t.Logf("round %d results=%v %v %v trace=%v", round, s.Result(0), s.Result(1), s.Result(2), trace)
+		state[i] = ""
+		settle(i)
+	}
+	out.Op("step-limit", "abort")
+	return false
+}
+
+type c19Case struct {
+	n, m  int
+	kinds []string
+	mode  string // "random" | "sequential" | "burst"
+}
+
+func c19Setup(t *testing.T) (*vhPhys, *Core, string, *vhRecBackend) {
+	p := vhNewPhys(t)
+	var rec *vhRecBackend
+	c, _, root := vhNewCore(t, p, &rec, nil)
+	vhMount(t, c, root, "rec/")
+	if cl, _ := vhReq(c, logical.UpdateOperation, "sys/policies/acl/c19", root, map[string]any{"policy": c19Policy}); cl != "ok" {
+		t.Fatalf("policy write: %s", cl)
+	}
+	if cl, _ := vhReq(c, logical.UpdateOperation, "rec/data/a", root, map[string]any{"value": "v"}); cl != "ok" {
+		t.Fatalf("seed write: %s", cl)
+	}
+	return p, c, root, rec
+}
+
+func c19RunCase(t *testing.T, out *vh.Out, cs c19Case, rng *vh.Rand) {
+	p, c, root, rec := c19Setup(t)
+	defer func() { _ = c.Shutdown() }()
+	tok := vhCreateToken(t, c, root, map[string]any{"ttl": "1h", "policies": []string{"default", "c19"}, "num_uses": cs.n})
+	out.Reset()
+	out.Op("ok", append([]string{"init", vh.I(int64(cs.n)), vh.I(int64(cs.m))}, cs.kinds...)...)
+	s := vhNewSched(p, cs.m)
+	started := 0
+	startThread := func(i int) {
+		kind := cs.kinds[i]
+		s.Go(i, func() string { return vh.Catch(func() string { return c19Issue(c, kind, tok, i) }) })
+		started++
+	}
+	var pick c19Picker
+	switch cs.mode {
+	case "sequential":
+		// every request runs to completion before the next one starts
+		for i := 0; i < cs.m; i++ {
+			startThread(i)
+		}
+		order := make([]int, cs.m)
+		for i := range order {
+			order[i] = i
+		}
+		for i := len(order) - 1; i > 0; i-- {
+			j := rng.Intn(i + 1)
+			order[i], order[j] = order[j], order[i]
+		}
+		rank := map[int]int{}
+		for r, i := range order {
+			rank[i] = r
+		}
+		pick = func(cand []int, step int) int {
+			best := 0
+			for k, i := range cand {
+				if rank[i] < rank[cand[best]] {
+					best = k
+				}
+			}
+			return best
+		}
+	case "latelease":
+		// directed (finding F13): thread 0 runs until it is about to write a lease record, then thread 1 runs to
+		// completion (last use, revocation), then thread 0 registers its lease
+		for i := 0; i < cs.m; i++ {
+			startThread(i)
+		}
+		pick = func(cand []int, step int) int {
+			want := 0
+			if p0 := s.Parked(0); p0 != nil && p0.Kind == "put" && strings.HasPrefix(vhKeyClass(p0.Key), "lease-") && !s.Finished(1) {
+				want = 1
+			}
+			for k, i := range cand {
+				if i == want {
+					return k
+				}
+			}
+			return 0
+		}
+	case "burst":
+		// a thread keeps running for a random number of steps before the scheduler switches
+		for i := 0; i < cs.m; i++ {
+			startThread(i)
+		}
+		cur, left := -1, 0
+		pick = func(cand []int, step int) int {
+			if left > 0 {
+				for k, i := range cand {
+					if i == cur {
+						left--
+						return k
+					}
+				}
+			}
+			k := rng.Intn(len(cand))
+			cur, left = cand[k], rng.Intn(5)
+			return k
+		}
+	default:
+		for i := 0; i < cs.m; i++ {
+			startThread(i)
+		}
+		pick = func(cand []int, step int) int { return rng.Intn(len(cand)) }
+	}
+	// the request that performs the n-th decrement is the last use: when it has returned, its deferred
+	// LazyRevoke has queued the revocation; wait for the expiration worker (never gated) to finish it, so that
+	// the worker's effect has a definite place in the observed schedule (`bg`)
+	puts, lastUser := 0, -1
+	salted := c19Salted(t, c, tok)
+	kc := c19KeyClass(salted)
+	hk := c19Hooks{
+		keyClass: kc,
+		onEv: func(i int, op *vhOp) {
+			if op.Kind == "put" && kc(op.Key) == "tok-id" {
+				puts++
+				if puts == cs.n {
+					lastUser = i
+				}
+			}
+		},
+		afterDone: func(i int) {
+			if i != lastUser {
+				return
+			}
+			st := c19TokenState(c, salted)
+			for waited := 0; st != "gone" && waited < 2000; waited++ {
+				time.Sleep(time.Millisecond)
+				st = c19TokenState(c, salted)
+			}
+			out.Op(st, "bg")
+		},
+	}
+	ok := c19RunSchedule(out, s, cs.m, pick, hk)
+	s.Drain(2000)
+	if !ok {
+		return
+	}
+	// the last use queues the revocation; the expiration worker performs it in the background
+	st := c19TokenState(c, salted)
+	for waited := 0; st == "pending" && waited < 500; waited++ {
+		time.Sleep(10 * time.Millisecond)
+		st = c19TokenState(c, salted)
+	}
+	out.Op(st, "final")
+	_, issued, revoked := rec.Snapshot()
+	for waited := 0; st == "gone" && len(revoked) < len(issued) && waited < 300; waited++ {
+		time.Sleep(10 * time.Millisecond)
+		_, issued, revoked = rec.Snapshot()
+	}
+	out.Op(vh.Sprintf("issued:%d/revoked:%d", len(issued), len(revoked)), "leases")
+	ak := c19Kinds[rng.Intn(len(c19Kinds))]
+	out.Op(vh.Catch(func() string { return c19Issue(c, ak, tok, 99) }), "after", ak)
+}
+
+func TestVerifC19(t *testing.T) {
+	out := vh.Open()
+	defer out.Close()
+	rng := vh.NewRand(vh.Seed())
+	cases := vh.EnvInt("VERIF_C19_CASES", 150)
+	if vh.Thorough() {
+		cases = vh.EnvInt("VERIF_C19_CASES", 1500)
+	}
+	c19RunCase(t, out, c19Case{n: 2, m: 2, kinds: []string{"lease", "read"}, mode: "latelease"}, rng.Fork(1<<40))
+	for ci := 0; ci < cases; ci++ {
+		r := rng.Fork(uint64(ci))
+		cs := c19Case{n: 1 + r.Intn(4)}
+		cs.m = cs.n + 1 + r.Intn(3)
+		if r.Chance(12) { // fewer requests than uses: the count must simply go down
+			cs.m = 1 + r.Intn(cs.n)
+		}
+		for i := 0; i < cs.m; i++ {
+			cs.kinds = append(cs.kinds, c19Kinds[r.Intn(len(c19Kinds))])
+		}
+		switch x := r.Intn(10); {
+		case x < 2:
+			cs.mode = "sequential"
+		case x < 5:
+			cs.mode = "burst"
+		default:
+			cs.mode = "random"
+		}
+		c19RunCase(t, out, cs, r)
 	}
 }
